@@ -1,4 +1,5 @@
 (* C03 — commands run only after everything they depend on is final, on every schedule.
+   ROUND 2 (end of this file): the property about file CONTENTS, for every order of the workers' work steps.
    Only the property theorems; proofs in Proofs/ProtocolFacts.v. Protocol level: `EWork t` is worker t's
    whole work step (for a rule: resolve its targets and, if needed, run its command; for a leaf: hash the
    file). The theorems quantify over every event sequence the protocol admits, i.e. every interleaving.
@@ -8,7 +9,9 @@
    compares every declared source with its independently computed final value at the moment
    execute_command is entered, under explored schedules. *)
 From Coq Require Import List Arith.
-From Ruler Require Import Bytes RuleSyntax TopoSort Protocol ProtocolFacts ProtocolPlan.
+From Ruler Require Import Bytes AList RuleSyntax TopoSort World Cmdlang Work Build Ops Inv BuildSpec Ideal InvFacts C01Hist C01Facts
+     Sched SchedBasic SchedFacts C03Sched.
+From Ruler Require Import Protocol ProtocolFacts ProtocolPlan.
 Local Close Scope N_scope.
 Local Open Scope nat_scope.
 
@@ -30,4 +33,51 @@ Theorem C03_recv_after_send : forall g s e, wf_graph g -> reachable g s ->
   nth e (ps_recvd s) false = true -> nth e (ps_sent s) false = true.
 Proof. exact P1_recvd_sent. Qed.
 
+(* ------------------------------------------------------------------------------------------------------
+   ABOUT CONTENTS, ON EVERY WORK ORDER (Model/Sched.v; proofs in Proofs/C03Sched.v on top of the invariant of
+   Proofs/SchedInv.v). In the build under any valid order `ord = pre ++ k :: post` of the workers' work steps, at the
+   moment worker k — a rule node that is not canceled, i.e. one that really handles its rule and may run its command
+   — starts, every declared source of its rule (1) already has the content it has at the END of the build (final),
+   (2) exists (not missing), (3) holds exactly the from-scratch content (correct); and (C03_sources_stay_final) it
+   keeps that content in every later state of the run: nobody replaces it while or after the command reads it.
+   The states are those of build_ord itself (st0 is its initial state: the world after init with the table saved
+   without the plan's entries, nobody has worked). Interleaving INSIDE a work step: Model/Fine.v, where a command is
+   one step of its thread and reads only sources whose producers are done. *)
+Local Open Scope N_scope.
+Local Notation hist_sound_sym := (hist_sound sym sym_eqb SContent SList SRule).
+
+Theorem C03_sources_final_when_worker_starts : forall (w : world sym) rp goal w1 tbl pack hists blobs t' ord pre k post n,
+  disk_inv sym_eqb SContent w -> hist_sound_sym w -> init_dir sym w = Ok (w1, tbl) -> get_nodes sym w1 rp goal = Ok pack ->
+  Forall det_node (p_nodes pack) -> valid_order pack ord ->
+  read_histories sym sym_eqb SRule w1 (p_nodes pack) = Some hists ->
+  take_blobs sym SContent tbl (worker_paths pack) = (blobs, t') ->
+  ord = pre ++ k :: post ->
+  nth_error (p_nodes pack) (k - length (p_leaves pack)) = Some n -> (length (p_leaves pack) <= k)%nat ->
+  let st0 := mk_ss (write_table sym w1 t') (repeat None (nworkers pack)) (repeat None (nworkers pack)) [] in
+  let st_before := fold_left (work_step sym_eqb SContent SList pack blobs hists) pre st0 in
+  let st_end := fold_left (work_step sym_eqb SContent SList pack blobs hists) ord st0 in
+  (exists r tr, nth k (ss_res st_end) None = Some (r, tr) /\ tr <> TCanceled) ->
+  forall s, In s (r_sources (n_rule n)) ->
+    content_at (ss_world st_before) s = content_at (ss_world st_end) s
+    /\ content_at (ss_world st_before) s <> None
+    /\ content_at (ss_world st_before) s = content_at (scratch_world w pack) s.
+Proof. exact sources_final_when_worker_starts_sym. Qed.
+
+Theorem C03_sources_stay_final : forall (w : world sym) rp goal w1 tbl pack hists blobs t' ord pre k mid rest n,
+  disk_inv sym_eqb SContent w -> hist_sound_sym w -> init_dir sym w = Ok (w1, tbl) -> get_nodes sym w1 rp goal = Ok pack ->
+  Forall det_node (p_nodes pack) -> valid_order pack ord ->
+  read_histories sym sym_eqb SRule w1 (p_nodes pack) = Some hists ->
+  take_blobs sym SContent tbl (worker_paths pack) = (blobs, t') ->
+  ord = pre ++ k :: mid ++ rest ->
+  nth_error (p_nodes pack) (k - length (p_leaves pack)) = Some n -> (length (p_leaves pack) <= k)%nat ->
+  let st0 := mk_ss (write_table sym w1 t') (repeat None (nworkers pack)) (repeat None (nworkers pack)) [] in
+  let st_before := fold_left (work_step sym_eqb SContent SList pack blobs hists) pre st0 in
+  let st_mid := fold_left (work_step sym_eqb SContent SList pack blobs hists) (pre ++ k :: mid) st0 in
+  let st_end := fold_left (work_step sym_eqb SContent SList pack blobs hists) ord st0 in
+  (exists r tr, nth k (ss_res st_end) None = Some (r, tr) /\ tr <> TCanceled) ->
+  forall s, In s (r_sources (n_rule n)) ->
+    content_at (ss_world st_mid) s = content_at (ss_world st_before) s.
+Proof. exact sources_stay_final_sym. Qed.
+
 Check C03_work_order.
+Check C03_sources_final_when_worker_starts.
